@@ -1,5 +1,6 @@
 (* modelrun — evaluates the extracted Coq model on the cases the Go harness ran. One mode per property. *)
 open Model
+type string = String.t
 open Util
 
 (* C17: args: alphabet-hex maxlen ; stdin: one pattern (hex) per line.
@@ -33,4 +34,5 @@ let () =
   | _ :: "parse" :: args -> M_codec.mode_parse args
   | _ :: "encode" :: args -> M_codec.mode_encode args
   | _ :: "ctor" :: args -> M_codec.mode_ctor args
+  | _ :: "conn" :: args -> M_conn.mode_conn args
   | _ -> prerr_endline "usage: modelrun <mode> [args]"; exit 2
